@@ -6,7 +6,7 @@ from . import util
 from . import defmachine as dm
 
 TARGETS = ['Properties/C13.vo', 'Run/ObsC13.vo']
-THEOREMS = []
+THEOREMS = util.theorems('C13')
 RUN_MODULE = 'Run.ObsC13'
 SHARD_SIZE = 400
 RULE = ('(a) exhaustive single steps: every definition over ordered subsets of 2 object and 2 property names x every operation '
